@@ -42,3 +42,16 @@ impl InputBuffer {
         b
     }
 }
+
+#[cfg(kani)]
+impl InputBuffer {
+    /// harness helper: `verif_ascii` plus the per-byte word-start flags
+    pub(crate) fn verif_ascii_bow(text: &str, bow: &[bool]) -> InputBuffer {
+        let mut b = InputBuffer::verif_ascii(text);
+        for i in 0..text.len() {
+            b.mod_bow.push(bow[i]);
+            b.mod_chars.push(text.as_bytes()[i] as char);
+        }
+        b
+    }
+}
